@@ -62,3 +62,25 @@ package actionlint
 //@ func (*RuleShellcheck).runShellcheck$1
 //@   props C20
 //@   ensures err == nil && jsonbad(stdout) ==> result != nil
+
+// C20: a failure of the tool process is always turned into an error of the run; every issue the tool
+// printed becomes exactly one diagnostic (no early exit from the loop over the issues)
+//@ func (*RuleShellcheck).runShellcheck$1
+//@   props C20
+//@   ensures err0 != nil ==> result != nil
+//@   loop "range errs":
+//@     complete
+//@     body_calls (*RuleBase).Errorf iff true
+//@ func (*RulePyflakes).runPyflakes$1
+//@   props C20
+//@   ensures err0 != nil ==> result != nil
+//@ func (*RulePyflakes).parseNextError
+//@   props C20
+//@   ensures result1 == nil && result0 != nil ==> len(rule.errs) == old(len(rule.errs)) + 1
+//@   ensures result1 == nil && result0 != nil ==> len(result0) < len(stdout)
+
+// C15: the exit status is a function of the filtered list: failure for a fatal error, 1 iff at least
+// one diagnostic is left after filtering, 0 otherwise
+//@ func (*Command).Main
+//@   props C15
+//@   at_return (err != nil ==> result == ExitStatusFailure) && (err == nil && len(errs) > 0 ==> result == ExitStatusSuccessProblemFound) && (err == nil && len(errs) == 0 ==> result == ExitStatusSuccessNoProblem)
